@@ -84,8 +84,8 @@ class Table(object):
         if k == 'hierpost':
             hl = self.get(r['hl'])
             return chi.HierarchicalLogPosterior(hl, zoo.build_prior(
-                {'n': hl.n_parameters(exclude_bottom_level=True),
-                 'kind': 'lognormal'}))
+                dict(r.get('prior', {'kind': 'lognormal'}),
+                     n=hl.n_parameters(exclude_bottom_level=True))))
         if k == 'filterpost':
             mech = self.get(r['mech'])
             pop = self.get(r['pop'])
@@ -97,7 +97,7 @@ class Table(object):
             n_top = pop.n_parameters() + (0 if sigma else n_out)
             return chi.PopulationFilterLogPosterior(
                 flt, ts, mech, pop, zoo.build_prior(
-                    {'n': n_top, 'kind': 'lognormal'}),
+                    dict(r.get('prior', {'kind': 'lognormal'}), n=n_top)),
                 sigma=([0.3] * n_out if sigma else None),
                 n_samples=r.get('n_sim', 3),
                 error_on_log_scale=bool(r.get('log_scale')))
